@@ -59,7 +59,7 @@ class BaseFiles(Generic[Interface]):
             os.path.join(self.directory, os.path.join(*path.split("/")))
         )
 
-        if path == "/":
+        if path.endswith("/") and not abspath.endswith("/"):
             abspath += "/"
 
         relpath = os.path.relpath(abspath, self.directory)
